@@ -270,6 +270,9 @@ func (a *AggregatePlan) batchGetAggrKeys(chunk []KVPair, ctx *ExecuteCtx) ([]str
 			if err != nil {
 				return nil, err
 			}
+			// Prefix every group value with its length so that different tuples
+			// such as ('a', 'bc') and ('ab', 'c') do not share one key
+			aggKey = append(aggKey, fmt.Sprintf("%d:", len(bval))...)
 			aggKey = append(aggKey, bval...)
 		}
 		ret[i] = string(aggKey)
@@ -517,6 +520,9 @@ func (a *AggregatePlan) getAggrKey(key []byte, val []byte, ctx *ExecuteCtx) (str
 		if err != nil {
 			return "", err
 		}
+		// Prefix every group value with its length so that different tuples
+		// such as ('a', 'bc') and ('ab', 'c') do not share one key
+		gkey += fmt.Sprintf("%d:", len(bval))
 		gkey += string(bval)
 	}
 	return gkey, nil
